@@ -161,6 +161,28 @@ def cargo_profile_neutral():
     return True, "Cargo.toml", "no profile sets panic=abort (profiles: %s)" % (", ".join(prof) or "defaults")
 
 
+def cargo_profiles_agree():
+    """(ok, detail): the dev and release profiles agree on the settings that change what a *failing* run prints:
+    panic strategy (abort skips the exit-time flush of stdout and changes the exit status)."""
+    t = cargo_toml()
+    prof = t.get("profile", {})
+
+    def setting(name, key, default, seen=()):
+        p = prof.get(name, {})
+        if key in p:
+            return p[key]
+        inh = p.get("inherits")
+        if inh and inh not in seen:
+            return setting(inh, key, default, seen + (name,))
+        return default
+    diffs = []
+    names = sorted(set(prof) | {"dev", "release"})
+    vals = {n: setting(n, "panic", "unwind") for n in names if n in ("dev", "release") or "inherits" in prof.get(n, {})}
+    if len(set(vals.values())) > 1:
+        diffs.append("panic strategy differs between profiles: %s" % vals)
+    return not diffs, "; ".join(diffs) or "profiles agree on the panic strategy (%s)" % vals
+
+
 # --------------------------------------------------------------------------- Result discipline
 
 RESULT = "std::result::Result"
@@ -360,3 +382,97 @@ def chunked_decodes(fx, hb):
         if in_loop or partial:
             out.append((n, cd, "inside a loop" if in_loop else "after a partial read (%s)" % (partial[0]["callee"].get("def"))))
     return out
+
+
+# --------------------------------------------------------------------------- transparent input readers
+
+TRANSPARENT_WRAPPERS = ("std::boxed::Box::<T>::new", "std::io::BufReader::<R>::new", "std::io::BufReader::<R>::with_capacity")
+RAW_SOURCES_TY = ("std::fs::File", "std::io::Stdin", "std::io::StdinLock")
+WHOLE_READS = ("std::fs::read",)
+
+
+def reader_transparency(fx, adt="NamedSource", field="source"):
+    """[(where, ok, why)] for every place that builds the CLI's input reader: what is stored in `adt.field` must be
+    the file / stdin itself under byte-transparent wrappers (Box, BufReader), or a Cursor over the bytes exactly as
+    they were read (fs::read / read_to_end into a vector nothing else touches). Any other expression may change the
+    bytes before the bytecode loader / the parser sees them."""
+    from ..facts import walk
+    out = []
+    for hb in fx.hir:
+        if hb["from_expansion"]:
+            continue
+        for n, ps in walk_body(hb):
+            if n.get("k") == "Struct" and (n.get("res") or {}).get("path") == adt:
+                for f in n["fields"]:
+                    if f["name"] != field:
+                        continue
+                    ok, why = _transparent(fx, hb, f["e"])
+                    out.append((hb["path"], loc(n), ok, why))
+            if n.get("k") == "Assign" and peel(n["lhs"]).get("k") == "Field" and peel(n["lhs"])["name"] == field and peel(n["lhs"]).get("adt") == adt:
+                ok, why = _transparent(fx, hb, n["rhs"])
+                out.append((hb["path"], loc(n), ok, why))
+    return out
+
+
+def _transparent(fx, hb, e):
+    e = peel(e)
+    while e.get("k") in ("Cast", "Use", "DropTemps", "Type"):
+        e = peel(e["e"])
+    k = e.get("k")
+    if k == "Call":
+        cd = (e.get("callee") or {}).get("def") or ""
+        if cd in TRANSPARENT_WRAPPERS:
+            return _transparent(fx, hb, e["args"][-1])
+        if cd in ("std::io::Cursor::<T>::new",):
+            return _raw_bytes(fx, hb, e["args"][0])
+        if cd in ("std::io::stdin", "std::fs::File::open"):
+            return True, cd
+        return False, "built by %s" % (cd or "an unresolved call")
+    ty = fx.ty(e) or ""
+    if k == "Path" and e["res"].get("k") == "Local" and ty.startswith(RAW_SOURCES_TY):
+        return True, "a %s" % ty
+    if k == "MethodCall":
+        cd = (e.get("callee") or {}).get("def") or ""
+        if cd in ("std::io::Stdin::lock",):
+            return _transparent(fx, hb, e["recv"])
+        return False, "built by %s" % (cd or e.get("name"))
+    return False, "an expression of type %s that is not the file / stdin under Box / BufReader" % (ty or "?")
+
+
+def _raw_bytes(fx, hb, e):
+    """the bytes under a Cursor are exactly what was read"""
+    e = peel(e)
+    if e.get("k") in ("Call", "MethodCall"):
+        cd = (e.get("callee") or {}).get("def") or ""
+        if cd in WHOLE_READS:
+            return True, "Cursor over %s" % cd
+        # `fs::read(p)?` / `.expect()` around it
+        if e.get("k") == "MethodCall" and e["name"] in ("expect", "unwrap"):
+            return _raw_bytes(fx, hb, e["recv"])
+        return False, "Cursor over the result of %s" % (cd or e.get("name"))
+    if e.get("k") == "Match" and e.get("src") == "TryDesugar":
+        inner = peel(e["scrut"])
+        if inner.get("k") == "Call" and inner.get("args"):
+            return _raw_bytes(fx, hb, inner["args"][0])
+    if e.get("k") == "Path" and e["res"].get("k") == "Local":
+        lid = e["res"]["lid"]
+        others = []
+        filled = False
+        for n, ps in walk_body(hb):
+            if n.get("k") == "Path" and n["res"].get("k") == "Local" and n["res"]["lid"] == lid and n is not e:
+                call = None
+                for role, p in reversed(ps):
+                    if p.get("k") in ("Call", "MethodCall"):
+                        call = p
+                        break
+                    if p.get("k") in ("Block", "Closure"):
+                        break
+                cd = ((call or {}).get("callee") or {}).get("def") or ""
+                if cd == "std::io::Read::read_to_end":
+                    filled = True
+                else:
+                    others.append(cd or (call or {}).get("name") or "use")
+        if filled and not others:
+            return True, "Cursor over the vector filled by read_to_end"
+        return False, "Cursor over a vector that is %s" % ("also used by %s" % others if others else "not filled by read_to_end")
+    return False, "Cursor over a computed value"
